@@ -334,11 +334,12 @@ def slot_programs():
     def new():
         return {"new": {"pd": False}}
     progs = []
-    for pad in (None, 1, 2):
+    for pad, init in [(p_, "value") for p_ in (None, 1, 2)] + [(None, "null"), (1, "null")]:
         for j in range(0, 10) if pad is None else (0, 1):
             for write in ("store", "swap", "cas"):
                 for end in ("into_inner", "drop_g", "keep"):
-                    ops = [{"op": "new", "c": 0, "v": new()}, {"op": "new", "c": 1, "v": new()}]
+                    # init = "null": the old guard is a guard on None (its debt is the null pointer, paid by whoever replaces a None)
+                    ops = [{"op": "new", "c": 0, "v": new() if init == "value" else "null"}, {"op": "new", "c": 1, "v": new()}]
                     if pad is not None:
                         ops.append({"op": "pad", "c": 1, "free": pad, "base": 300})
                     ops.append({"op": "load", "c": 0, "g": 1})
@@ -361,6 +362,21 @@ def slot_programs():
                     elif end == "keep":
                         ops += [{"op": "deref_g", "g": 1}, {"op": "drop_g", "g": 1}]
                     progs.append(ops)
+    # guards that outlive their container (C10), the container dropped normally or by the unwinding of a panic in its owner
+    for k in (1, 3, 9, 12):
+        for unwinding in (False, True):
+            for full in (False, True):
+                ops = [{"op": "new", "c": 0, "v": new()}, {"op": "new", "c": 1, "v": new()}]
+                for i in range(k):
+                    ops.append({"op": "load", "c": 0, "g": 10 + i})
+                if full:
+                    ops.append({"op": "load_full", "c": 0, "h": 5})
+                ops.append({"op": "drop_c", "c": 0, "unwinding": unwinding})
+                for i in range(k):
+                    ops += [{"op": "deref_g", "g": 10 + i}, {"op": "drop_g", "g": 10 + i}]
+                if full:
+                    ops += [{"op": "deref_h", "h": 5}, {"op": "drop_h", "h": 5}]
+                progs.append(ops)
     return progs
 
 
